@@ -341,6 +341,10 @@ type T struct {
 	L    *Ledger
 	Name string
 	Push int
+	// Fan > 1 makes the handler read its stream from that many goroutines at
+	// once (a handler fanning its input out to workers); it returns when all
+	// of them have returned.
+	Fan int
 }
 
 // PushBit marks the stream ids of pushed messages (server-assigned serials).
@@ -376,6 +380,33 @@ func (t *T) run(st rpc.Stream, codec string) error {
 		t.L.mu.Lock()
 		rec.Pushed++
 		t.L.mu.Unlock()
+	}
+	if t.Fan > 1 {
+		var wg sync.WaitGroup
+		errs := make([]string, t.Fan)
+		for k := 0; k < t.Fan; k++ {
+			wg.Add(1)
+			go func(k int) {
+				defer wg.Done()
+				for {
+					box := NewBox(codec)
+					if err := st.ReadMessage(nil, box.Ptr()); err != nil {
+						errs[k] = err.Error()
+						return
+					}
+					b := box.Get()
+					mr := MsgRec{Info: ParseStream(b), Sum: Sum(b), Len: len(b)}
+					t.L.mu.Lock()
+					rec.Reads = append(rec.Reads, mr)
+					t.L.mu.Unlock()
+					if mr.Info.Kind == KindEcho {
+						write(StreamMsg(mr.Info.Stream, DirDown, mr.Info.Index, mr.Info.Kind, mr.Info.Index, StreamHdr+8))
+					}
+				}
+			}(k)
+		}
+		wg.Wait()
+		return finish(errs[0], "")
 	}
 	down := uint32(0)
 	for {
@@ -431,6 +462,7 @@ func Register(server *rpc.Server, l *Ledger, pushes ...int) {
 		name := "T" + itoa(k)
 		server.RegisterName(name, &T{L: l, Name: name, Push: k})
 	}
+	server.RegisterName("F2", &T{L: l, Name: "F2", Fan: 2})
 }
 
 func itoa(i int) string {
